@@ -75,7 +75,7 @@ CLAIMED = {
  "C15": dict(engine="lean+facts+cli", technique="Lean 4 proof (prefix stability of the numbering walk; monotonicity of type expansion under symbol-table extension) + differential correspondence over random append-only histories",
    text="Lean 4: numberMembers_append / append_to_interface: numbering an interface with members appended numbers every pre-existing member of that interface and of its ancestors exactly as before (op-codes, error values, expanded parameter lists) and only adds members after them; "
         "plans_preserved: op-code, counts word, bundles and slot sections of old methods are unchanged; expandTy_extends: adding declarations of fresh names anywhere leaves every expanded type unchanged. "
-        "Tie: random append-only histories of 3-5 revisions; op/err/method facts of the real pipeline and the generated C stub, C skeleton and Rust stub fragments of every pre-existing method are compared across revisions, and the facts with the model.",
+        "Tie: random append-only histories of 3-5 revisions; op/err/method facts of the real pipeline and the generated C stub, C skeleton and Rust stub fragments of every pre-existing method are compared across revisions, and the facts with the model. Interoperation (old_call_same_dispatch, new_method_unknown_to_old): a new-revision skeleton dispatches every envelope of an old method exactly as the old skeleton, and an old-revision skeleton answers a method appended later with INVALID, never with another method. The op-code macros of the C stub are evaluated by the C compiler for every revision.",
    note=TB + " Interoperation of old stubs with new skeletons at run time follows from identical fragments + C01; it is not executed here."),
  "C16": dict(engine="lean+cli debug/release", technique="Lean 4 proof for the decision logic (array bounds, counter ranges, wrap = checked when values fit) + differential debug/release execution on generated, mutated and boundary inputs",
    text="Partial by construction. Lean 4: accepted array bounds lie in 1..=65535 (one decoder for both profiles), the u8 argument counters of an accepted method stay below 256 (interface verifier bounds each class by 15), wrapping and checked arithmetic agree when values fit; a concrete struct whose expanded size exceeds 2^64 is exhibited (known finding: debug panics, release wraps). "
